@@ -22,7 +22,7 @@ open Spec
 type fail = { kind : string; detail : string; signature : string }
 
 let rule_name (r : rule) : string = match r with
-  | RNotClientPacket -> "RNotClientPacket" | RStringLen -> "RStringLen" | RBinaryLen -> "RBinaryLen"
+  | RNotClientPacket -> "RNotClientPacket" | RStringLen -> "RStringLen" | RStringNul -> "RStringNul" | RBinaryLen -> "RBinaryLen"
   | RUserPropertyValueLen -> "RUserPropertyValueLen" | RPacketTooBig -> "RPacketTooBig"
   | RMaximumPacketSize -> "RMaximumPacketSize" | RPacketIdZero -> "RPacketIdZero" | RTopicName -> "RTopicName"
   | RTopicNul -> "RTopicNul" | RTopicAliasZero -> "RTopicAliasZero" | RMaximumQos -> "RMaximumQos"
@@ -60,9 +60,16 @@ let gen_topic_name (r : rng) : string =
   if chance r 70 then String.concat "/" (L.init (1 + rand_int r 3) (fun _ -> pick r ["a"; "b"; "\xc3\xa9"; "ab"; "$x"; ""]))
   else gen_topic_like r
 let big_len (r : rng) = pick r [65535; 65536; 65534; 65535; 65536; 70000]
+(* D28: a U+0000 somewhere inside a string (or binary: must stay acceptable) field, about one field in 25 *)
+let with_nul (r : rng) (s : string) : string =
+  if chance r 4 then begin
+    let n = String.length s in
+    let k = (match rand_int r 3 with 0 -> 0 | 1 -> n | _ -> rand_int r (n + 1)) in
+    String.sub s 0 k ^ "\x00" ^ String.sub s k (n - k)
+  end else s
 let gen_sized (r : rng) ?(big = 2) () : string =
   if chance r big then String.make (big_len r) 'x'
-  else String.make (pick r [0; 1; 2; 5; 127; 128; 3]) 'y'
+  else with_nul r (String.make (pick r [0; 1; 2; 5; 127; 128; 3]) 'y')
 let with_big (r : rng) (s : string) : string =
   (* rarely stretch a (topic / filter) string to the length limit *)
   if chance r 1 then (let n = big_len r in s ^ String.make (max 0 (n - String.length s)) 'z') else s
